@@ -7,7 +7,7 @@ copies are removed at the end. The 70 unit tests are run per patch inside the cl
 import glob, json, os, shutil, subprocess, sys
 sys.path.insert(0, os.path.dirname(os.path.abspath(__file__)))
 
-ROOT = '/tmp/par'
+ROOT = os.environ.get('PAR_ROOT', '/tmp/par')
 
 def sh(cmd, **kw):
     return subprocess.run(cmd, shell=True, capture_output=True, text=True, **kw)
